@@ -42,7 +42,8 @@ From AV Require Import Base.Bytes Base.Outcome Hash.HashModel Tree.Heap Tree.Ops
   Tree.InvProofsDetFiles Tree.InvProofsDetFilesMain Tree.InvProofsOp2 Tree.InvExamples
   Tree.InvProofsChars Tree.InvProofsChars5 Tree.InvProofsOrigins3 Tree.InvProofsReal Tree.InvProofsRealTables Spec.SpecReal.
 From AV Require Import Tree.Script2 Tree.InvLoad Tree.InvProofsOp2Full Tree.InvProofsLoadExamples Tree.InvProofsOp2Lift
-  Tree.InvProofsOp2Real.
+  Tree.InvProofsOp2Real Tree.InvEBase Tree.InvProofsLoadLive Tree.InvProofsOp2Live.
+From AV Require Xml.TablesOk.
 From AV Require Tree.Load Tree.MergeSpec.
 Open Scope string_scope.
 Open Scope list_scope.
@@ -190,6 +191,55 @@ Theorem C03_detfiles_inv2_partial :
     run_op2 T tab_el tab_at tab_en check_fn float_parse float_fmt LATEST name_index name_definition_ref
             attr_schema_location root_attrs o w = Val (r, w') -> DF w'.
 Proof. exact DF_step2_partial. Qed.
+
+(* ---------- the whole alphabet op2, loads included: the invariant without RootsOnly ---------- *)
+Theorem C03_roots_only_live :
+  forall (w : world) (i : id) (n : node) (m : N),
+    Core w -> Live w i -> w_nodes w i = Some n -> n_parent n = PModel m -> nth_error (roots w) (N.to_nat m) = Some i.
+Proof. exact roots_only_live. Qed.
+
+Theorem C03_treeinv_live : forall w : world, TreeInv w -> TreeInvL w.
+Proof. exact TreeInv_TreeInvL. Qed.
+
+Theorem C03_inv2 :
+  forall (T : tables) (tab_el tab_at tab_en : nametab) (check_fn : N -> list N -> res bool)
+         (float_parse : list N -> option N) (float_fmt : N -> list N)
+         (LATEST name_index name_definition_ref attr_schema_location : N) (root_attrs : list (N * cdata))
+         (o : op2) (w : world) (r : out value2) (w' : world),
+    RefChars T -> TablesOk.tables_ok T = true -> RealInvL T w ->
+    Known_real2 T tab_el tab_at tab_en check_fn float_parse float_fmt LATEST name_index name_definition_ref
+                attr_schema_location root_attrs w o = false ->
+    Known_load T tab_el tab_at tab_en check_fn float_parse float_fmt LATEST name_index name_definition_ref
+               attr_schema_location root_attrs w o = false ->
+    run_op2 T tab_el tab_at tab_en check_fn float_parse float_fmt LATEST name_index name_definition_ref
+            attr_schema_location root_attrs o w = Val (r, w') -> RealInvL T w'.
+Proof. exact RealInvL_step2. Qed.
+
+Theorem C03_inv2_real :
+  forall (tab_el tab_at tab_en : nametab) (check_fn : N -> list N -> res bool)
+         (float_parse : list N -> option N) (float_fmt : N -> list N)
+         (LATEST name_index name_definition_ref attr_schema_location : N) (root_attrs : list (N * cdata))
+         (o : op2) (w : world) (r : out value2) (w' : world),
+    RealInvL RT w ->
+    Known_real2 RT tab_el tab_at tab_en check_fn float_parse float_fmt LATEST name_index name_definition_ref
+                attr_schema_location root_attrs w o = false ->
+    Known_load RT tab_el tab_at tab_en check_fn float_parse float_fmt LATEST name_index name_definition_ref
+               attr_schema_location root_attrs w o = false ->
+    run_op2 RT tab_el tab_at tab_en check_fn float_parse float_fmt LATEST name_index name_definition_ref
+            attr_schema_location root_attrs o w = Val (r, w') -> RealInvL RT w'.
+Proof. exact RealInvL_step2_real. Qed.
+
+(* every history over op2 from the empty world on the regenerated tables *)
+Theorem C03_histories2_real :
+  forall (tab_el tab_at tab_en : nametab) (check_fn : N -> list N -> res bool)
+         (float_parse : list N -> option N) (float_fmt : N -> list N)
+         (LATEST name_index name_definition_ref attr_schema_location : N) (root_attrs : list (N * cdata))
+         (l : list op2) (w' : world),
+    clean_ops2 RT tab_el tab_at tab_en check_fn float_parse float_fmt LATEST name_index name_definition_ref
+               attr_schema_location root_attrs l empty_world = true ->
+    run_ops2 RT tab_el tab_at tab_en check_fn float_parse float_fmt LATEST name_index name_definition_ref
+             attr_schema_location root_attrs l empty_world = Val w' -> RealInvL RT w'.
+Proof. exact RealInvL_histories2_real. Qed.
 
 (* ---------- the artefact classes are empty on the real tables ---------- *)
 (* CharsLeaf: an element whose content mode is Characters has no sub-elements; kept by every operation, every table set *)
